@@ -243,7 +243,30 @@ def run_driver_parallel(jobs, deny=(), uid=None, tag="job", shards=None, timeout
                 else:
                     r["_warm"] = w
                     byid[r["id"]] = r
+    # a shard that ended abnormally loses the results of the job it was running and of every job after it.  Run those again, one
+    # process each: a job whose process is killed by a signal AGAIN (SIGABRT from a panic inside an extern "C" function or a
+    # double panic, SIGSEGV, SIGILL, ...) is reported by Check.finish as a violation with the job as the failing input; a job
+    # that goes through now just gets its result.  Timeouts and ordinary exit codes are not judged here.
+    if errs:
+        missing = [j for j in jobs if j["id"] not in byid]
+        for n_, j in enumerate(missing[:48]):
+            rc, out, results = run_driver([j], deny, uid, f"{tag}re{n_}", timeout, extra_args)
+            w = None
+            got = False
+            for r in results:
+                if r.get("id") == "warmup":
+                    w = r
+                elif r.get("id") == j["id"]:
+                    r["_warm"] = w
+                    byid[j["id"]] = r
+                    got = True
+            if not got and rc < 0:
+                DIED.append({"job": {k_: v_ for k_, v_ in j.items() if k_ != "tree"}, "tree": j.get("tree"), "signal": -rc,
+                             "denied": list(deny), "uid": uid, "output": out[-600:]})
     return warm, byid, errs
+
+
+DIED = []
 
 
 # --------------------------------------------------------------------------
@@ -619,6 +642,9 @@ class Check:
         wall = time.time() - self.t0
         for fid, what in self.known_hits:
             print(f"KNOWN-FINDING: property={self.prop} {fid}: {what}")
+        for d_ in DIED[:3]:
+            self.violations.append(("%s: the process was killed by signal %d while the library ran this job (twice: in its batch and alone) -- "
+                                    "it aborts instead of returning an error" % (self.prop, d_["signal"]), d_, True))
         found_inputs = [v for v in self.violations if v[2]]
         if self.build_broken and not found_inputs:
             self.violations.append(("harness does not build against /repo", {"log": self.build_broken}, False))
